@@ -507,3 +507,24 @@ Definition is_remove_race (f : fault) : bool := match f with SendOnClosed NDelS 
 
 Fixpoint count_occ_nat (i : nat) (l : list nat) : nat :=
   match l with [] => O | x :: t => (if Nat.eqb x i then 1 else 0) + count_occ_nat i t end.
+
+(* "closed is final": every closing bit only ever gets set, every channel only ever goes from
+   open to closed (a nil channel stays nil), an unlisted session stays unlisted *)
+Definition chan_le (a b : chan) : bool :=
+  match a, b with Nil, Nil | Open, Open | Open, Closed | Closed, Closed => true | _, _ => false end.
+Definition sess_le (s s' : sess) : bool :=
+  implb (closing s) (closing s') && implb (shutdown_ s) (shutdown_ s') && implb (closed s) (closed s') &&
+  implb (sendc s) (sendc s') && implb (wakec s) (wakec s') && implb (recvc s) (recvc s') &&
+  implb (shutwait s) (shutwait s') &&
+  chan_le (send s) (send s') && chan_le (wake s) (wake s') && chan_le (recv s) (recv s') &&
+  chan_le (done s) (done s') && chan_le (mux s) (mux s').
+Definition world_le (w w' : world) : bool :=
+  sess_le (cli w) (cli w') && sess_le (srv w) (srv w') && implb (listed w') (listed w) &&
+  implb (ctxdone w) (ctxdone w') && implb (sock_closed w) (sock_closed w') &&
+  implb (l_closing w) (l_closing w') && implb (l_closed w) (l_closed w') && chan_le (l_done w) (l_done w') &&
+  implb (sctx_done w) (sctx_done w') &&
+  chan_le (sv_new w) (sv_new w') && chan_le (sv_dell w) (sv_dell w') && chan_le (sv_dels w) (sv_dels w') &&
+  chan_le (sv_events w) (sv_events w') && chan_le (sv_done w) (sv_done w').
+
+(* schedules of the regression witnesses *)
+Fixpoint rep (n : nat) (i : nat) : list nat := match n with O => [] | S k => i :: rep k i end.
